@@ -5,6 +5,14 @@
 //  (d) binary contents around the stdio / copy block sizes
 //  (e) Directory::copy / move (File::copy / move) x destination kinds x rename() answering 0 / EXDEV / EACCES (interposed)
 //  (f) explicit-state BFS over histories of write / append / open / close / read operations on one path (vf::Bfs)
+// Extensions after the coverage review (reviews/C17.md):
+//  (a,d) every written file is also read through File objects that carry stat data obtained elsewhere (Directory::files(), copies of an
+//        object with a cached size, objects that knew another file before); readLine('\n') on CR-free texts; the idiom while(f.readLine(s))
+//  (b) line lengths around 4096, 8192 and 65536    (c) a wider scalar alphabet at lengths <= 2 (3), repeated up to 3000 times
+//  (e) destinations that resolve to the source itself (same path, own directory, hard link, symbolic link, dir/./name); sources that stop
+//      being readable (fread interposed: call k fails with a kernel error; /proc/self/mem; a directory)
+//  (f) open() on an object that is already open (with and without unflushed bytes), open(RW) with reads and overwriting writes, size() of the
+//      writing object, a piece longer than the stdio buffer, pieces that form a UTF-8 BOM together
 // Oracle side uses POSIX calls and std:: only.
 #include <asl/File.h>
 #include <asl/TextFile.h>
@@ -29,6 +37,25 @@ extern "C" int rename(const char* a, const char* b) __THROW {
 	if (g_rename_errno) { errno = g_rename_errno; return -1; }
 	if (!real) real = (fn_t)dlsym(RTLD_NEXT, "rename");
 	return real(a, b);
+}
+
+// ---------------------------------------------------------------- fread() interposition (link-time): a source that stops being readable
+// The k-th fread() after arming is made to fail by a REAL kernel error: the descriptor under the FILE is replaced (dup2) by a
+// directory descriptor, so that glibc's read() answers EISDIR and glibc itself sets the error indicator of the FILE.
+static int g_fread_fail_at = 0; // 0 = forward; k = the k-th call from now fails
+static int g_fread_calls = 0, g_fread_faults = 0;
+extern "C" size_t fread(void* p, size_t sz, size_t n, FILE* f) {
+	typedef size_t (*fn_t)(void*, size_t, size_t, FILE*);
+	static fn_t real = 0;
+	if (!real) real = (fn_t)dlsym(RTLD_NEXT, "fread");
+	if (g_fread_fail_at && ++g_fread_calls == g_fread_fail_at) {
+		int bad = ::open("/", O_RDONLY | O_DIRECTORY);
+		if (bad >= 0) { dup2(bad, fileno(f)); ::close(bad); }
+		size_t r = real(p, sz, n, f);
+		if (ferror(f)) g_fread_faults++;
+		return r;
+	}
+	return real(p, sz, n, f);
 }
 
 // ---------------------------------------------------------------- POSIX side (oracle)
@@ -148,7 +175,12 @@ static std::vector<std::string> special_texts() {
 static int C_EVAL, C_DIST, C_PYCHK;
 static int W_CHUNK_EXACT, W_CHUNK_MULTI, W_CRLF_SPLIT_BY_CHUNK, W_NOFINAL, W_EMPTY_FILE, W_LONE_CR_KEPT, W_HEAP_REALLOC_LINE, W_BOM8, W_BOM16LE, W_BOM16BE, W_SURROGATE, W_FOLD16, W_PARTIAL_BOM,
 	W_COPY_MULTIBLOCK, W_COPY_EXACT_BLOCK, W_COPY_TO_DIR, W_COPY_OVER_LONGER, W_RENAME_INTERCEPTED, W_MOVE_RENAME_OK, W_MOVE_EXDEV, W_MOVE_EACCES, W_MOVE_DEVFULL, W_APPEND_EXISTING, W_TRUNCATE_EXISTING, W_READ_SHORT, W_BIG,
-	W_H_REUSED_OBJECT_READ, W_H_CACHED_SIZE_THEN_WRITE, W_H_APPEND_OPEN, W_H_STREAM_READ, W_H_EOF_SEEN, W_H_CR_LF_ACROSS_WRITES;
+	W_H_REUSED_OBJECT_READ, W_H_CACHED_SIZE_THEN_WRITE, W_H_APPEND_OPEN, W_H_STREAM_READ, W_H_EOF_SEEN, W_H_CR_LF_ACROSS_WRITES,
+	// extensions after the coverage review
+	W_COPY_ALIAS, W_MOVE_ALIAS, W_MOVE_ALIAS_EXDEV, W_COPY_DEVFULL, W_FREAD_FAULT, W_COPY_READ_FAULT, W_MOVE_READ_FAULT, W_COPY_UNREADABLE_SOURCE,
+	W_INFO_FROM_LISTING, W_INFO_COPIED, W_INFO_REPOINTED, W_BOMX, W_BOM_OVER_STDIO_BUFFER, W_BOM_RESULT_ON_HEAP, W_BOM_INNER_FEFF, W_LINE_OVER_4096, W_LINE_OVER_65536,
+	W_READLINE_CHAR, W_READLINE_BOOL_IDIOM, W_READLINE_FALSE_AT_END,
+	W_H_OPEN_WHILE_OPEN, W_H_OPEN_WHILE_UNFLUSHED, W_H_SIZE_WHILE_WRITING, W_H_SIZE_CACHE_OUTDATED, W_H_RW_READ, W_H_RW_OVERWRITE, W_H_RW_EXTEND, W_H_BOM_LED, W_H_OVER_STDIO_BUFFER;
 
 static void bad(const char* sig, const std::string& desc, const std::string& kase) { vf::violation(sig, desc, kase); }
 static bool asan_check(const std::string& what, const std::string& kase) {
@@ -199,7 +231,119 @@ static std::string do_write(int w, const std::string& path, const std::string& d
 }
 
 // ---------------------------------------------------------------- readers
+// a defect class that is expected to fire on very many cases is listed a few times per worker only; every occurrence is counted
+static int C_REPEATS;
+static void bad_limited(const char* sig, const std::string& desc, const std::string& kase) {
+	static std::map<std::string, int> full; // per process: the run-wide budget of this signature is used up
+	if (!full[sig]) for (int i = 0; i < 4; i++) { // the first four occurrences of the whole run are listed (marker files in the scratch directory)
+		int fd = ::open((vf::scratch_dir() + fmt("/listed.%s.%d", sig, i)).c_str(), O_WRONLY | O_CREAT | O_EXCL, 0600);
+		if (fd >= 0) { ::close(fd); bad(sig, desc, kase); return; }
+	}
+	full[sig] = 1;
+	if (vf::opt.replay) { bad(sig, desc, kase); return; }
+	vf::add(C_REPEATS); vf::note(std::string("repeats_not_listed:") + sig);
+}
+// line readers, shared by the tables and the line-length sweep. variants (bit mask):
+//  0 lines()   1 while(!f.end()) f.readLine()   2 readLine(s), s reused   3 readLine(s), fresh s
+//  4 the idiom while(f.readLine(s)): every line except the empty one behind the last LF (the result is false only if nothing was read)
+//  5 while(!f.end()) f.readLine('\n') for CR-free texts: plain split at LF
+static void check_line_readers(const std::string& path, const std::string& E, unsigned variants, const std::string& ctx, const std::string& kase) {
+	String p = vfx::A(path);
+	std::vector<std::string> ref = ref_lines(E);
+	for (int variant = 0; variant < 6; variant++) {
+		if (!((variants >> variant) & 1)) continue;
+		if (variant == 5 && (E.find('\r') != std::string::npos || E.size() > 70000)) continue;
+		std::vector<std::string> got, exp = ref;
+		const char* nm = "";
+		const char* sig = variant == 0 ? "lines" : variant == 4 ? "readLine_result" : variant == 5 ? "readLine_char" : "readLine";
+		int guard = (int)ref.size() + 5;
+		std::string boolerr;
+		if (variant == 0) { nm = "lines()"; Array<String> a = TextFile(p).lines(); for (int i = 0; i < a.length(); i++) got.push_back(vfx::S(a[i])); }
+		else if (variant == 1) { nm = "while(!f.end()) f.readLine()"; TextFile f(p); while (!f.end() && guard-- > 0) got.push_back(vfx::S(f.readLine())); }
+		else if (variant == 2 || variant == 3) {
+			nm = variant == 2 ? "TextFile f(p,READ); String s; while(!f.end()) f.readLine(s) (s reused)" : "TextFile f(p,READ); while(!f.end()) { String s; f.readLine(s); }";
+			TextFile f(p, File::READ); String s0;
+			while (!f.end() && guard-- > 0) {
+				String s1; String& s = variant == 2 ? s0 : s1;
+				bool r = f.readLine(s);
+				got.push_back(vfx::S(s));
+				if (!r) vf::add(W_READLINE_FALSE_AT_END);
+				if (!r && s.length() > 0 && boolerr.empty()) boolerr = fmt("readLine(s) call %d returned false although it delivered a line of %d characters", (int)got.size(), s.length());
+			}
+		}
+		else if (variant == 4) {
+			nm = "TextFile f(p,READ); String s; while(f.readLine(s)) use(s)"; TextFile f(p, File::READ); String s;
+			while (guard-- > 0 && f.readLine(s)) got.push_back(vfx::S(s));
+			if (exp.back().empty()) exp.pop_back();
+			vf::add(W_READLINE_BOOL_IDIOM);
+		}
+		else { nm = "TextFile f(p); while(!f.end()) f.readLine('\\n')"; TextFile f(p); while (!f.end() && guard-- > 0) got.push_back(vfx::S(f.readLine('\n'))); vf::add(W_READLINE_CHAR); }
+		vf::add(C_EVAL);
+		if (!boolerr.empty()) bad_limited("readLine_result", boolerr + ctx, kase);
+		if (got.size() != exp.size()) {
+			std::string d = fmt("%s gave %d lines, expected %d%s", nm, (int)got.size(), (int)exp.size(), ctx.c_str());
+			if (variant == 4) bad_limited(sig, d + (got.size() + 1 == exp.size() ? fmt(" (the last line, %d characters without a final newline, is reported as 'no line')", (int)exp.back().size()) : std::string()), kase);
+			else bad(sig, d, kase);
+			continue;
+		}
+		for (size_t i = 0; i < exp.size(); i++) if (got[i] != exp[i]) { bad(sig, fmt("%s line %d%s: ", nm, (int)i, ctx.c_str()) + firstdiff(got[i], exp[i]), kase); break; }
+	}
+}
+// File objects that carry stat data obtained elsewhere: through a directory listing, copied from another object, re-pointed
 struct ReadOpts { bool text, lines, small_chunks; };
+static const char OTHER_CONTENT[] = "OTHER!\n"; // a second file of another size next to the one under test
+static std::string other_path() {
+	std::string o = wdir() + "/other.bin";
+	static pid_t made = 0;
+	if (made != getpid() || !p_exists(o)) { p_write(o, OTHER_CONTENT); made = getpid(); }
+	return o;
+}
+static void check_info_carriers(const std::string& path, const std::string& E, const ReadOpts& ro, const std::string& kase) {
+	String p = vfx::A(path), o = vfx::A(other_path());
+	int n = (int)E.size();
+	bool txt = ro.text && !has_nul(E) && !starts_with_bom(E);
+	{ // the objects Directory::files() builds (stat data taken while listing)
+		Directory d(vfx::A(wdir()));
+		const Array<File> fs = d.files();
+		int at = -1;
+		for (int i = 0; i < fs.length(); i++) if (vfx::S(fs[i].path()) == path) at = i;
+		vf::add(C_EVAL);
+		if (at < 0) bad("listing", fmt("Directory(dir).files() (%d entries) does not list the file just written", fs.length()), kase);
+		else {
+			vf::add(W_INFO_FROM_LISTING);
+			File f = fs[at];
+			Long sz = f.size(); if (sz != (Long)n) bad("size", fmt("size() of the File from Directory::files() = %lld after writing %d bytes", (long long)sz, n), kase);
+			ByteArray c = f.content(); if (SB(c) != E) bad("content", "content() of the File from Directory::files(): " + firstdiff(SB(c), E), kase);
+			if (txt) { TextFile t(fs[at]); String s = t.text(); if (vfx::S(s) != E) bad("text", "TextFile(File from Directory::files()).text(): " + firstdiff(vfx::S(s), E), kase); }
+		}
+	}
+	{ // copies of an object that has cached stat data
+		File f(p); Long sz = f.size(); vf::add(C_EVAL); vf::add(W_INFO_COPIED);
+		if (sz != (Long)n) bad("size", fmt("size() = %lld after writing %d bytes", (long long)sz, n), kase);
+		File g(f); { ByteArray c = g.content(); if (SB(c) != E) bad("content", "File f(p); f.size(); File g(f); g.content(): " + firstdiff(SB(c), E), kase); }
+		File h; h = f; { ByteArray c = h.firstBytes(n + 1); if (SB(c) != E) bad("firstBytes", "File f(p); f.size(); File h; h = f; h.firstBytes(n+1): " + firstdiff(SB(c), E), kase); if (h.size() != (Long)n) bad("size", fmt("h = f; h.size() = %lld, %d bytes were written", (long long)h.size(), n), kase); }
+		if (txt) { TextFile t(f); String s = t.text(); if (vfx::S(s) != E) bad("text", "File f(p); f.size(); TextFile t(f); t.text(): " + firstdiff(vfx::S(s), E), kase); }
+		{ ByteArray c = f.content(); if (SB(c) != E) bad("content", "File f(p); f.size(); f.content(): " + firstdiff(SB(c), E), kase); }
+	}
+	{ // objects that knew another file before
+		vf::add(C_EVAL); vf::add(W_INFO_REPOINTED);
+		File a(o); Long so = a.size();
+		if (so != (Long)(sizeof OTHER_CONTENT - 1)) bad("size", fmt("size() of the neighbour file = %lld", (long long)so), kase);
+		a = File(p);
+		{ ByteArray c = a.content(); if (SB(c) != E) bad("content", "File a(other); a.size(); a = File(p); a.content(): " + firstdiff(SB(c), E), kase); }
+		File b(o); b.size();
+		if (!b.open(p, File::READ)) bad("read", "File b(other); b.open(p, READ) returned false", kase);
+		else {
+			Long sb = b.size(); ByteArray c = b.content();
+			if (sb != (Long)n) bad_limited("stale_cached_size", fmt("File b(other); b.size(); b.open(p, READ); b.size() = %lld: that is the size of the other file, %d bytes were written to p", (long long)sb, n), kase);
+			if (SB(c) != E) bad_limited("stale_cached_size", "File b(other); b.size(); b.open(p, READ); b.content(): " + firstdiff(SB(c), E), kase);
+		}
+		if (txt) {
+			TextFile t(o); t.size();
+			if (t.open(p, File::READ)) { String s = t.text(); if (vfx::S(s) != E) bad_limited("stale_cached_size", "TextFile t(other); t.size(); t.open(p, READ); t.text(): " + firstdiff(vfx::S(s), E), kase); }
+		}
+	}
+}
 // all reading APIs on the file at path, expected content E; fresh object for each
 static void check_readers(const std::string& path, const std::string& E, const ReadOpts& ro, const std::string& kase) {
 	String p = vfx::A(path);
@@ -247,21 +391,8 @@ static void check_readers(const std::string& path, const std::string& E, const R
 		{ String t = TextFile(p).text(); vf::add(C_EVAL); if (vfx::S(t) != E) bad("text", "text(): " + firstdiff(vfx::S(t), E), kase); }
 		{ TextFile f(p, File::READ); String t = f.text(); vf::add(C_EVAL); if (vfx::S(t) != E) bad("text", "TextFile f(p, READ); f.text(): " + firstdiff(vfx::S(t), E), kase); }
 	}
-	if (ro.lines && !has_nul(E)) {
-		std::vector<std::string> ref = ref_lines(E);
-		for (int variant = 0; variant < 4; variant++) {
-			std::vector<std::string> got;
-			const char* nm = "";
-			int guard = (int)ref.size() + 5;
-			if (variant == 0) { nm = "lines()"; Array<String> a = TextFile(p).lines(); for (int i = 0; i < a.length(); i++) got.push_back(vfx::S(a[i])); }
-			else if (variant == 1) { nm = "while(!f.end()) f.readLine()"; TextFile f(p); while (!f.end() && guard-- > 0) got.push_back(vfx::S(f.readLine())); }
-			else if (variant == 2) { nm = "TextFile f(p,READ); String s; while(!f.end()) f.readLine(s) (s reused)"; TextFile f(p, File::READ); String s; while (!f.end() && guard-- > 0) { f.readLine(s); got.push_back(vfx::S(s)); } }
-			else { nm = "TextFile f(p,READ); while(!f.end()) { String s; f.readLine(s); }"; TextFile f(p, File::READ); while (!f.end() && guard-- > 0) { String s; f.readLine(s); got.push_back(vfx::S(s)); } }
-			vf::add(C_EVAL);
-			if (got.size() != ref.size()) { bad(variant == 0 ? "lines" : "readLine", fmt("%s gave %d lines, reference split gives %d", nm, (int)got.size(), (int)ref.size()), kase); continue; }
-			for (size_t i = 0; i < ref.size(); i++) if (got[i] != ref[i]) { bad(variant == 0 ? "lines" : "readLine", fmt("%s line %d: ", nm, (int)i) + firstdiff(got[i], ref[i]), kase); break; }
-		}
-	}
+	if (ro.lines && !has_nul(E)) check_line_readers(path, E, 0x3f, "", kase);
+	check_info_carriers(path, E, ro, kase);
 }
 static void line_witnesses(const std::string& E) {
 	if (has_nul(E)) return;
@@ -335,18 +466,9 @@ static void check_line(int n, int eol, int pos, int fill) {
 	// only the text-level readers here (the byte-level ones are covered by the tables)
 	String p = vfx::A(path);
 	{ String t = TextFile(p).text(); vf::add(C_EVAL); if (vfx::S(t) != text) bad("text", "text(): " + firstdiff(vfx::S(t), text), kase); }
-	std::vector<std::string> ref = ref_lines(text);
-	for (int variant = 0; variant < 3; variant++) {
-		std::vector<std::string> got;
-		const char* nm = "";
-		int guard = (int)ref.size() + 5;
-		if (variant == 0) { nm = "lines()"; Array<String> a = TextFile(p).lines(); for (int i = 0; i < a.length(); i++) got.push_back(vfx::S(a[i])); }
-		else if (variant == 1) { nm = "while(!f.end()) f.readLine()"; TextFile f(p); while (!f.end() && guard-- > 0) got.push_back(vfx::S(f.readLine())); }
-		else { nm = "String s; while(!f.end()) f.readLine(s) (s reused)"; TextFile f(p, File::READ); String s; while (!f.end() && guard-- > 0) { f.readLine(s); got.push_back(vfx::S(s)); } }
-		vf::add(C_EVAL);
-		if (got.size() != ref.size()) { bad(variant == 0 ? "lines" : "readLine", fmt("%s gave %d lines, reference split gives %d (line of %d chars, end %s)", nm, (int)got.size(), (int)ref.size(), n, vf::hex(EOLS[eol]).c_str()), kase); continue; }
-		for (size_t i = 0; i < ref.size(); i++) if (got[i] != ref[i]) { bad(variant == 0 ? "lines" : "readLine", fmt("%s line %d (line of %d chars, end %s): ", nm, (int)i, n, vf::hex(EOLS[eol]).c_str()) + firstdiff(got[i], ref[i]), kase); break; }
-	}
+	check_line_readers(path, text, 0x37, fmt(" (line of %d chars, end %s)", n, vf::hex(EOLS[eol]).c_str()), kase); // all variants but the fresh-String one
+	if (n > 4096) vf::add(W_LINE_OVER_4096);
+	if (n > 65536) vf::add(W_LINE_OVER_65536);
 	line_witnesses(text);
 	vf::add(C_DIST);
 	asan_check("line readers", kase);
@@ -378,11 +500,9 @@ static void bom_build(int enc, const std::vector<uint32_t>& seq, std::string& ra
 	// anchored mechanism: the UTF-16 reader folds CR LF into LF
 	for (size_t i = 0; i < u8.size(); i++) { if (u8[i] == '\r' && i + 1 < u8.size() && u8[i + 1] == '\n') continue; expect += u8[i]; }
 }
-static void check_bom(int enc, int len, int idx, int via) {
-	std::string kase = fmt("bom:%d:%d:%d:%d", enc, len, idx, via);
+static void check_bom_seq(int enc, const std::vector<uint32_t>& seq, int via, const std::string& kase) {
 	vf::cur(kase);
 	vf::asan_clear();
-	std::vector<uint32_t> seq = bom_seq(len, idx);
 	std::string raw, expect; bom_build(enc, seq, raw, expect);
 	std::string path = wdir() + "/b.txt";
 	::unlink(path.c_str());
@@ -391,16 +511,35 @@ static void check_bom(int enc, int len, int idx, int via) {
 	if (disk != raw) { bad("disk_bytes", "bytes on disk differ from what was written: " + firstdiff(disk, raw), kase); return; }
 	String p = vfx::A(path);
 	const char* en[] = { "UTF-8", "UTF-16LE", "UTF-16BE" };
-	{ String t = TextFile(p).text(); vf::add(C_EVAL); if (vfx::S(t) != expect) bad("bom_text", fmt("text() of a %s BOM file %s: ", en[enc], vf::hex(raw).c_str()) + firstdiff(vfx::S(t), expect), kase); }
-	{ TextFile f(p, File::READ); String t = f.text(); vf::add(C_EVAL); if (vfx::S(t) != expect) bad("bom_text", fmt("TextFile f(p,READ); f.text() of a %s BOM file %s: ", en[enc], vf::hex(raw).c_str()) + firstdiff(vfx::S(t), expect), kase); }
+	std::string rawd = raw.size() <= 64 ? vf::hex(raw) : brief(raw);
+	{ String t = TextFile(p).text(); vf::add(C_EVAL); if (vfx::S(t) != expect) bad("bom_text", fmt("text() of a %s BOM file %s: ", en[enc], rawd.c_str()) + firstdiff(vfx::S(t), expect), kase); }
+	{ TextFile f(p, File::READ); String t = f.text(); vf::add(C_EVAL); if (vfx::S(t) != expect) bad("bom_text", fmt("TextFile f(p,READ); f.text() of a %s BOM file %s: ", en[enc], rawd.c_str()) + firstdiff(vfx::S(t), expect), kase); }
 	{ ByteArray c = File(p).content(); vf::add(C_EVAL); if (SB(c) != raw) bad("content", "content() of a BOM file: " + firstdiff(SB(c), raw), kase); }
 	vf::add(enc == 0 ? W_BOM8 : enc == 1 ? W_BOM16LE : W_BOM16BE);
 	for (size_t i = 0; i < seq.size(); i++) if (seq[i] > 0xFFFF && enc) { vf::add(W_SURROGATE); break; }
 	for (size_t i = 0; enc && i + 1 < seq.size(); i++) if (seq[i] == 0x0D && seq[i + 1] == 0x0A) { vf::add(W_FOLD16); break; }
+	for (size_t i = 0; i < seq.size(); i++) if (seq[i] == 0xFEFF) { vf::add(W_BOM_INNER_FEFF); break; }
+	if (raw.size() > 4096) vf::add(W_BOM_OVER_STDIO_BUFFER);
+	if (expect.size() > 15) vf::add(W_BOM_RESULT_ON_HEAP);
 	vf::add(C_DIST);
 	asan_check("text() of a BOM file", kase);
 	::unlink(path.c_str());
 }
+static void check_bom(int enc, int len, int idx, int via) { check_bom_seq(enc, bom_seq(len, idx), via, fmt("bom:%d:%d:%d:%d", enc, len, idx, via)); }
+// second family: a wider alphabet (an inner U+FEFF, U+FFFE, the boundaries of the 1/2/3/4-byte UTF-8 forms and of the surrogate gap) at
+// lengths <= 2 (3), each sequence repeated so that the results leave String's inline buffer, the wchar_t array regrows and the
+// file crosses the stdio buffer
+static const uint32_t SCALARS_X[] = { 0x41, 0xE9, 0x20AC, 0x1F600, 0x0D, 0x0A, 0x010D, 0x0D0A, 0x1F40D, 0x0A00, 0xFEFF, 0xFFFE, 0x7F, 0x80, 0x7FF, 0x800, 0xD7FF, 0xE000, 0xFFFF, 0x10FFFF };
+enum { NSCALAR_X = 20 };
+static const int BOMX_REPS[] = { 1, 6, 100, 3000 };
+enum { NBOMX_REP = 4 };
+static std::vector<uint32_t> bomx_seq(int len, int idx, int rep) {
+	std::vector<uint32_t> u, v;
+	for (int i = 0; i < len; i++) { u.push_back(SCALARS_X[idx % NSCALAR_X]); idx /= NSCALAR_X; }
+	for (int r = 0; r < rep; r++) v.insert(v.end(), u.begin(), u.end());
+	return v;
+}
+static void check_bomx(int enc, int len, int idx, int rep, int via) { vf::add(W_BOMX); check_bom_seq(enc, bomx_seq(len, idx, rep), via, fmt("bomx:%d:%d:%d:%d:%d", enc, len, idx, rep, via)); }
 
 // ---------------------------------------------------------------- (d) binary contents
 static void check_bin(long size, int pat, int writer) {
@@ -424,8 +563,11 @@ static void check_bin(long size, int pat, int writer) {
 // ---------------------------------------------------------------- (e) copy / move
 static const long COPY_SIZES[] = { 0, 1, 65535, 65536, 65537, 131072, 131073 };
 enum { NCOPYSIZE = 7 };
-enum { D_NEW, D_EXISTING_LONGER, D_DIR, D_DIR_WITH_SAME_NAME, D_DEVFULL, NDEST };
-static const char* DEST_NAME[] = { "new file name", "existing longer file", "existing directory", "existing directory holding a file of the same name", "/dev/full (destination device has no space)" };
+// destinations D_SAME_PATH.. resolve to the source file itself
+enum { D_NEW, D_EXISTING_LONGER, D_DIR, D_DIR_WITH_SAME_NAME, D_DEVFULL, D_SAME_PATH, D_OWN_DIR, D_HARDLINK, D_SYMLINK, D_DOT_ALIAS, NDEST };
+static const char* DEST_NAME[] = { "new file name", "existing longer file", "existing directory", "existing directory holding a file of the same name", "/dev/full (destination device has no space)",
+	"the source path itself", "the directory that holds the source", "a hard link to the source", "a symbolic link to the source", "the source path spelled dir/./name" };
+static bool dest_is_source(int dest) { return dest >= D_SAME_PATH && dest <= D_DOT_ALIAS; }
 static void rm_tree(const std::string& d) { std::string c = "rm -rf '" + d + "'"; if (system(c.c_str())) {} }
 struct CopyEnv { std::string root, src, to, final_dst, content, old; bool dst_preexists; };
 static bool copy_env(long size, int dest, CopyEnv& e) {
@@ -443,6 +585,11 @@ static bool copy_env(long size, int dest, CopyEnv& e) {
 	case D_DIR: e.to = e.root + "/sub"; mkdir(e.to.c_str(), 0700); e.final_dst = e.to + "/src.bin"; break;
 	case D_DIR_WITH_SAME_NAME: e.to = e.root + "/sub"; mkdir(e.to.c_str(), 0700); e.final_dst = e.to + "/src.bin"; p_write(e.final_dst, e.old); e.dst_preexists = true; break;
 	case D_DEVFULL: e.to = e.final_dst = "/dev/full"; { struct stat st; if (::stat("/dev/full", &st) != 0 || !S_ISCHR(st.st_mode)) return false; } break;
+	case D_SAME_PATH: e.to = e.final_dst = e.src; e.dst_preexists = true; break;
+	case D_OWN_DIR: e.to = e.root; e.final_dst = e.src; e.dst_preexists = true; break;
+	case D_HARDLINK: e.to = e.final_dst = e.root + "/hl.bin"; if (::link(e.src.c_str(), e.to.c_str()) != 0) return false; e.dst_preexists = true; break;
+	case D_SYMLINK: e.to = e.final_dst = e.root + "/sl.bin"; if (::symlink("src.bin", e.to.c_str()) != 0) return false; e.dst_preexists = true; break;
+	case D_DOT_ALIAS: e.to = e.final_dst = e.root + "/./src.bin"; e.dst_preexists = true; break;
 	}
 	return true;
 }
@@ -456,8 +603,13 @@ static void check_copy(long size, int dest, int api) {
 	vf::add(C_EVAL); vf::add(C_DIST);
 	std::string s, d;
 	const char* an = api == 0 ? "Directory::copy" : "File::copy";
-	if (!p_read(e.src, s) || s != e.content) bad("copy_source_changed", fmt("%s of %ld bytes to %s: the source no longer holds its content", an, size, DEST_NAME[dest]), kase);
-	if (dest == D_DEVFULL) {
+	if (!p_read(e.src, s) || s != e.content)
+		bad(dest_is_source(dest) ? "copy_onto_itself" : "copy_source_changed", fmt("%s of %ld bytes to %s: the source no longer holds its content (%s; the call returned %s)", an, size, DEST_NAME[dest], s.empty() ? "it is empty or missing" : firstdiff(s, e.content).c_str(), ok ? "true" : "false"), kase);
+	if (dest_is_source(dest)) {
+		// the destination is the source: whatever the call answers, the content must still be there (checked above)
+		vf::add(W_COPY_ALIAS);
+	} else if (dest == D_DEVFULL) {
+		vf::add(W_COPY_DEVFULL);
 		// nothing can be stored there: a copy that reports success did not preserve the content anywhere but in the source
 		if (ok && size > 0) bad("copy_reports_success_on_write_error", fmt("%s of %ld bytes to /dev/full (every write fails with ENOSPC) returned true", an, size), kase);
 	} else {
@@ -474,18 +626,26 @@ static void check_copy(long size, int dest, int api) {
 }
 static const int RENAME_ERRNO[] = { 0, EXDEV, EACCES };
 static const char* RENAME_NAME[] = { "rename() succeeds", "rename() fails with EXDEV", "rename() fails with EACCES" };
+// which rename() answers a real kernel can give for a destination kind
+static bool move_case_exists(int dest, int rmode) {
+	if (dest == D_DEVFULL) return rmode == 0;   // the real rename() answers EXDEV there by itself
+	if (dest == D_SYMLINK) return true;         // the link may live on another file system than the file it names
+	if (dest_is_source(dest)) return rmode == 0; // the same directory entry / a hard link is never on another file system
+	return true;
+}
 static void check_move(long size, int dest, int rmode, int api) {
 	std::string kase = fmt("move:%ld:%d:%d:%d", size, dest, rmode, api);
 	vf::cur(kase);
 	vf::asan_clear();
 	CopyEnv e;
+	if (!move_case_exists(dest, rmode)) return;
 	if (!copy_env(size, dest, e)) return;
-	if (dest == D_DEVFULL && rmode != 0) return; // the real rename() answers EXDEV there by itself
 	int calls0 = g_rename_calls;
 	g_rename_errno = RENAME_ERRNO[rmode];
 	bool ok = api == 0 ? Directory::move(vfx::A(e.src), vfx::A(e.to)) : File(vfx::A(e.src)).move(vfx::A(e.to));
 	g_rename_errno = 0;
-	if (g_rename_calls > calls0) vf::add(W_RENAME_INTERCEPTED);
+	bool intercepted = g_rename_calls > calls0;
+	if (intercepted) vf::add(W_RENAME_INTERCEPTED);
 	vf::add(C_EVAL); vf::add(C_DIST);
 	const char* an = api == 0 ? "Directory::move" : "File::move";
 	std::string what = fmt("%s of %ld bytes to %s when %s", an, size, DEST_NAME[dest], RENAME_NAME[rmode]);
@@ -500,14 +660,22 @@ static void check_move(long size, int dest, int rmode, int api) {
 		asan_check("move", kase); rm_tree(e.root); return;
 	}
 	bool dst_there = p_read(e.final_dst, d), dst_ok = dst_there && d == e.content;
+	if (dest_is_source(dest)) {
+		// the destination names the source file: the content must afterwards be found under the destination name (true), or still
+		// under the source name (false); which names remain is the kernel's business (rename of a file onto itself / its hard link does nothing)
+		if (intercepted) { vf::add(W_MOVE_ALIAS); if (rmode == 1) vf::add(W_MOVE_ALIAS_EXDEV); }
+		if (!dst_ok && !src_ok) bad("move_onto_itself", what + ": the content is neither under the source nor under the destination name" + (ok ? " (returned true)" : " (returned false)") + (src_there ? "; source: " + firstdiff(s, e.content) : std::string("; source missing")), kase);
+		else if (ok && !dst_ok) bad("move_onto_itself", what + " returned true but the destination name does not hold the content", kase);
+		asan_check("move", kase); rm_tree(e.root); return;
+	}
 	if (rmode == 2) {
-		vf::add(W_MOVE_EACCES);
+		if (intercepted) vf::add(W_MOVE_EACCES);
 		// refused: nothing may have changed
 		if (ok) bad("move_result", what + " returned true", kase);
 		if (!src_ok) bad("move_lost_content", what + ": the source no longer holds its content", kase);
 		if (e.dst_preexists ? (!dst_there || d != e.old) : dst_there) bad("move_content", what + ": the destination was modified although the move was refused", kase);
 	} else {
-		vf::add(rmode == 0 ? W_MOVE_RENAME_OK : W_MOVE_EXDEV);
+		if (intercepted) vf::add(rmode == 0 ? W_MOVE_RENAME_OK : W_MOVE_EXDEV);
 		if (!dst_ok && !src_ok) bad("move_lost_content", what + ": neither source nor destination holds the content" + (dst_there ? "; destination: " + firstdiff(d, e.content) : std::string("; destination missing")), kase);
 		else if (!dst_ok) bad("move_content", what + ": " + (dst_there ? "destination differs: " + firstdiff(d, e.content) : std::string("destination missing, source untouched")) + (ok ? " (returned true)" : ""), kase);
 		else {
@@ -518,28 +686,92 @@ static void check_move(long size, int dest, int rmode, int api) {
 	asan_check("move", kase);
 	rm_tree(e.root);
 }
+// ---- a source that cannot be read (to the end)
+// (1) the k-th fread() of the copy loop fails with a kernel error (interposed, see the top of the file): the destination cannot be
+//     complete, so copy must not answer true, and the cross-device fallback of move must keep the source
+static void check_readfault(long size, int dest, int api, int k, bool move) {
+	std::string kase = fmt("%s:%ld:%d:%d:%d", move ? "moverf" : "copyrf", size, dest, api, k);
+	vf::cur(kase);
+	vf::asan_clear();
+	CopyEnv e;
+	if (!copy_env(size, dest, e)) return;
+	int faults0 = g_fread_faults;
+	g_fread_calls = 0; g_fread_fail_at = k;
+	if (move) g_rename_errno = EXDEV;
+	bool ok;
+	if (move) ok = api == 0 ? Directory::move(vfx::A(e.src), vfx::A(e.to)) : File(vfx::A(e.src)).move(vfx::A(e.to));
+	else ok = api == 0 ? Directory::copy(vfx::A(e.src), vfx::A(e.to)) : File(vfx::A(e.src)).copy(vfx::A(e.to));
+	g_fread_fail_at = 0; g_rename_errno = 0;
+	vf::add(C_EVAL); vf::add(C_DIST);
+	if (g_fread_faults == faults0) { asan_check("copy with a read error", kase); rm_tree(e.root); return; } // the loop ended before call k (no witness)
+	vf::add(W_FREAD_FAULT); vf::add(move ? W_MOVE_READ_FAULT : W_COPY_READ_FAULT);
+	const char* an = move ? (api == 0 ? "Directory::move" : "File::move") : (api == 0 ? "Directory::copy" : "File::copy");
+	std::string what = fmt("%s of %ld bytes to %s%s when read call %d on the source fails (EISDIR from the kernel, error indicator set)", an, size, DEST_NAME[dest], move ? " (rename() answers EXDEV: copy and delete)" : "", k);
+	std::string s, d;
+	bool src_there = p_read(e.src, s), src_ok = src_there && s == e.content;
+	bool dst_there = p_read(e.final_dst, d), dst_ok = dst_there && d == e.content;
+	if (!move) {
+		if (!src_ok) bad("copy_source_changed", what + ": the source no longer holds its content", kase);
+		if (ok && !dst_ok) bad("copy_read_error_ignored", what + ": returned true, but the destination " + (dst_there ? "is not the content: " + firstdiff(d, e.content) : std::string("does not exist")) + " - the read error was taken for the end of the file", kase);
+	} else {
+		if (!src_ok && !dst_ok) bad("move_read_error_lost_content", what + ": the source was deleted although the copy is incomplete - the content exists nowhere (returned " + (ok ? "true" : "false") + "; destination " + (dst_there ? firstdiff(d, e.content) : std::string("missing")) + ")", kase);
+		else if (ok && !dst_ok) bad("move_read_error_lost_content", what + ": returned true but the destination does not hold the content", kase);
+	}
+	asan_check("copy with a read error", kase);
+	rm_tree(e.root);
+}
+// (2) sources whose very first read fails without any interposition: /proc/self/mem (EIO at offset 0), a directory (EISDIR)
+enum { SRC_PROCMEM, SRC_DIRECTORY, NBADSRC };
+static const char* BADSRC_NAME[] = { "/proc/self/mem (read at offset 0 fails with EIO)", "a directory (fopen succeeds, read fails with EISDIR)" };
+static void check_badsource(int kind, int dest, int api) {
+	std::string kase = fmt("copysrc:%d:%d:%d", kind, dest, api);
+	vf::cur(kase);
+	vf::asan_clear();
+	CopyEnv e;
+	if (!copy_env(1, dest, e)) return;
+	std::string from = kind == SRC_PROCMEM ? std::string("/proc/self/mem") : e.root + "/srcdir";
+	if (kind == SRC_DIRECTORY) mkdir(from.c_str(), 0700);
+	{ // the oracle's own look: open works, read fails
+		int fd = ::open(from.c_str(), O_RDONLY); char c;
+		bool unreadable = fd >= 0 && ::read(fd, &c, 1) < 0;
+		if (fd >= 0) ::close(fd);
+		if (!unreadable) { rm_tree(e.root); return; }
+	}
+	bool ok = api == 0 ? Directory::copy(vfx::A(from), vfx::A(e.to)) : File(vfx::A(from)).copy(vfx::A(e.to));
+	vf::add(C_EVAL); vf::add(C_DIST); vf::add(W_COPY_UNREADABLE_SOURCE);
+	if (ok) bad("copy_read_error_ignored", fmt("%s from %s to %s returned true: not one byte of the source could be read", api == 0 ? "Directory::copy" : "File::copy", BADSRC_NAME[kind], DEST_NAME[dest]), kase);
+	asan_check("copy from an unreadable source", kase);
+	rm_tree(e.root);
+}
 
 // ---------------------------------------------------------------- (f) histories on one path
+enum { HIST_LONG_PIECE = 4200 }; // filler characters of the long piece
 struct HistSys {
-	enum Mode { CL, RD, WR, AP };
+	enum Mode { CL, RD, WR, AP, RW };
 	enum K { FW_PUT, FW_FWRITE, FW_FSTREAM_S, FW_FSTREAM_C, FW_TPUT, FW_TAPPEND, FW_TSTREAM, FW_FAPPEND,
 		F_OPEN_W, F_OPEN_A, F_OPEN_R, F_CLOSE, F_FLUSH, F_PUT, F_APPEND, F_STREAM, F_WRITEP, F_BPUT,
-		F_CONTENT, F_TEXT, F_LINES, F_SIZE, F_FIRST, F_READLOOP, F_READ, F_READLINE, F_SEEK0 };
+		F_CONTENT, F_TEXT, F_LINES, F_SIZE, F_FIRST, F_READLOOP, F_READ, F_READLINE, F_SEEK0, F_OPEN_RW };
 	struct Op { int k, a; };
 	std::vector<Op> ops;
 	std::vector<std::string> pieces;
 	TextFile* F;
 	std::string path;
-	// model
-	std::string L; bool exists; int mode; bool cached; size_t pos; bool eof; bool flushed;
+	// model. cached/csize: f.size(), content() or text() asked the file system for the size when the file had csize bytes (an
+	// implementation may keep that answer until close()); rwlast: last transfer on a read+write handle (0 none/positioned, 1 read, 2 write)
+	std::string L; bool exists; int mode; bool cached; size_t csize; size_t pos; bool eof; bool flushed; int rwlast;
+	// The search is level-synchronous: every history of a level is one stored history h plus one op, and h itself was run (and observed
+	// after its last step) one level earlier. Observations do not touch the long-lived object, so while a level is expanded only the
+	// state after the new op is observed; predict() is called exactly there (after h was replayed, before h+op runs). Replays of a case
+	// string and confirmation runs never call predict(): they observe after every step.
+	int steps; int observe_at;
 
-	HistSys() : F(0), exists(false), mode(CL), cached(false), pos(0), eof(false), flushed(true) {
+	HistSys() : F(0), exists(false), mode(CL), cached(false), csize(0), pos(0), eof(false), flushed(true), rwlast(0), steps(0), observe_at(-1) {
 		pieces.push_back("");
-		pieces.push_back("a");
+		pieces.push_back("\xbf"); // one byte; completes the partial BOM below to EF BB BF
 		pieces.push_back("bc\n");
 		pieces.push_back("d\r\ne\r");
 		pieces.push_back(std::string(254, 'x'));
-		{ std::string s = "\n"; for (int i = 0; i < 300; i++) s += fillc((size_t)i); s += "\r\n"; pieces.push_back(s); }
+		{ std::string s = "\n"; for (int i = 0; i < HIST_LONG_PIECE; i++) s += fillc((size_t)i); s += "\r\n"; pieces.push_back(s); }
 		pieces.push_back(std::string("\x00\x01\xff\n\r\x00", 6));
 		pieces.push_back("\xef\xbb"); // partial UTF-8 BOM: text() must rewind and return it
 		int np = (int)pieces.size();
@@ -550,6 +782,7 @@ struct HistSys {
 		for (size_t i = 0; i < sizeof fk / sizeof *fk; i++) for (int p = 0; p < np; p++) add(fk[i], p);
 		add(F_CONTENT); add(F_TEXT); add(F_LINES); add(F_SIZE); add(F_FIRST, 1); add(F_FIRST, 300); add(F_READLOOP);
 		add(F_READ, 1); add(F_READ, 100); add(F_READ, 1000); add(F_READLINE); add(F_SEEK0);
+		add(F_OPEN_RW); // appended last: the op numbers of older case strings stay valid
 	}
 	void add(int k, int a = 0) { Op o = { k, a }; ops.push_back(o); }
 	int nops() { return (int)ops.size(); }
@@ -559,31 +792,45 @@ struct HistSys {
 		path = wdir() + "/h.txt";
 		::unlink(path.c_str());
 		std::string().swap(L);
-		exists = false; mode = CL; cached = false; pos = 0; eof = false; flushed = true;
+		exists = false; mode = CL; cached = false; csize = 0; pos = 0; eof = false; flushed = true; rwlast = 0; steps = 0;
 		F = new TextFile(vfx::A(path));
 	}
 	bool pristine() const { return mode == CL && !cached; }
+	bool writing() const { return mode == WR || mode == AP || mode == RW; }
+	static bool bom16(const std::string& s) { return s.size() >= 2 && (((unsigned char)s[0] == 0xff && (unsigned char)s[1] == 0xfe) || ((unsigned char)s[0] == 0xfe && (unsigned char)s[1] == 0xff)); }
+	// what text() has to return for raw content s: a UTF-8 BOM is not part of the text
+	static std::string as_text(const std::string& s) { return starts_with_bom(s) && !bom16(s) ? s.substr(3) : s; }
 	bool enabled(int op) {
 		const Op& o = ops[op];
+		bool fresh_read = mode == CL || (mode == RD && pos == 0 && !eof);
 		switch (o.k) {
 		case FW_PUT: case FW_FWRITE: case FW_FSTREAM_S: case FW_FSTREAM_C: case FW_TPUT: case FW_TAPPEND: case FW_TSTREAM: case FW_FAPPEND:
 			return pristine(); // a second object writes only while the long-lived one holds neither a handle nor cached stat data
-		case F_OPEN_W: case F_OPEN_A: return mode == CL;
-		case F_OPEN_R: return mode == CL && exists;
+		case F_OPEN_W: case F_OPEN_A: return true; // also on an open object: the handle it holds is closed first, nothing written through it is lost
+		case F_OPEN_R: case F_OPEN_RW: return exists;
 		case F_CLOSE: return mode != CL || cached;
-		case F_FLUSH: return (mode == WR || mode == AP) && !flushed;
-		case F_PUT: case F_APPEND: case F_STREAM: case F_BPUT: return mode == CL || mode == WR || mode == AP;
-		case F_WRITEP: return mode == WR || mode == AP;
-		case F_CONTENT: case F_FIRST: return exists && (mode == CL || (mode == RD && pos == 0 && !eof));
-		case F_TEXT: return exists && (mode == CL || (mode == RD && pos == 0 && !eof)) && !starts_with_bom(L);
-		case F_LINES: case F_READLOOP: return exists && (mode == CL || (mode == RD && pos == 0 && !eof)) && !has_nul(L);
-		case F_SIZE: return exists && (mode == CL || mode == RD);
-		case F_READ: case F_SEEK0: return mode == RD;
+		case F_FLUSH: return writing() && !flushed;
+		case F_PUT: case F_WRITEP: if (mode == RW) return rwlast != 1; // C: no output directly after input without a positioning call
+			return o.k == F_PUT ? (mode == CL || mode == WR || mode == AP) : (mode == WR || mode == AP);
+		case F_APPEND: case F_STREAM: case F_BPUT: return mode == CL || mode == WR || mode == AP;
+		case F_CONTENT: case F_FIRST: return exists && fresh_read;
+		case F_TEXT: return exists && fresh_read && !bom16(L);
+		case F_LINES: case F_READLOOP: return exists && fresh_read && !has_nul(L);
+		case F_SIZE: return exists && (mode == CL || mode == RD || flushed); // of a writing object: once its bytes are flushed
+		case F_READ: return mode == RD || (mode == RW && rwlast != 2);
+		case F_SEEK0: return mode == RD || mode == RW;
 		case F_READLINE: return mode == RD && !has_nul(L);
 		}
 		return false;
 	}
-	const char* predict(int) { return 0; }
+	// defect classes the unchanged library is known to hit: the failing steps are reported under these exact signatures
+	const char* predict(int op) {
+		const Op& o = ops[op];
+		observe_at = steps + 1;
+		if ((o.k == F_OPEN_W || o.k == F_OPEN_A || o.k == F_OPEN_R || o.k == F_OPEN_RW) && mode != CL) return "open_without_close";
+		if ((o.k == F_SIZE || o.k == F_CONTENT || o.k == F_TEXT) && cached && csize != L.size()) return "stale_cached_size";
+		return 0;
+	}
 	std::string pname(int a) { const std::string& p = pieces[a]; return p.size() <= 6 ? "\"" + vf::hex(p) + "\"h" : fmt("<%d bytes %s..>", (int)p.size(), vf::hex(p.substr(0, 3)).c_str()); }
 	std::string opname(int op) {
 		const Op& o = ops[op];
@@ -599,6 +846,7 @@ struct HistSys {
 		case F_OPEN_W: return "f.open(WRITE)";
 		case F_OPEN_A: return "f.open(APPEND)";
 		case F_OPEN_R: return "f.open(READ)";
+		case F_OPEN_RW: return "f.open(RW)";
 		case F_CLOSE: return "f.close()";
 		case F_FLUSH: return "f.flush()";
 		case F_PUT: return "f.put(String " + pname(o.a) + ")";
@@ -618,7 +866,21 @@ struct HistSys {
 		}
 		return "?";
 	}
-	void wrote(const std::string& p) { if (!p.empty()) { if (!L.empty() && L[L.size() - 1] == '\r' && p[0] == '\n') vf::add(W_H_CR_LF_ACROSS_WRITES); L += p; flushed = false; } }
+	void wrote(const std::string& p) {
+		if (p.empty()) return;
+		if (mode == RW) { // overwrites from the current offset, extends behind the end
+			if (pos + p.size() > L.size()) vf::add(W_H_RW_EXTEND);
+			L.replace(pos, std::min(p.size(), L.size() - pos), p); pos += p.size(); rwlast = 2; vf::add(W_H_RW_OVERWRITE);
+		} else {
+			if (!L.empty() && L[L.size() - 1] == '\r' && p[0] == '\n') vf::add(W_H_CR_LF_ACROSS_WRITES);
+			L += p;
+		}
+		flushed = false;
+		if (L.size() > 4096) vf::add(W_H_OVER_STDIO_BUFFER);
+		if (starts_with_bom(L)) vf::add(W_H_BOM_LED);
+	}
+	// open() on an object that holds a handle: that handle is closed, so everything written through it is in the file
+	void reopened() { if (mode != CL) { vf::add(W_H_OPEN_WHILE_OPEN); if (!flushed) vf::add(W_H_OPEN_WHILE_UNFLUSHED); } flushed = true; pos = 0; eof = false; rwlast = 0; }
 	bool apply(int op, std::string& err) {
 		const Op& o = ops[op];
 		const std::string& pc = pieces[(o.k <= FW_FAPPEND || (o.k >= F_PUT && o.k <= F_BPUT)) ? o.a : 0];
@@ -632,11 +894,12 @@ struct HistSys {
 		case FW_TSTREAM: { std::string e = do_write(WR_TSTREAM_S, path, pc); if (!e.empty()) { err = e; return false; } L = pc; exists = true; break; }
 		case FW_TAPPEND: { std::string e = do_write(WR_TAPPEND, path, pc); if (!e.empty()) { err = e; return false; } if (exists) vf::add(W_H_APPEND_OPEN); L += pc; exists = true; break; }
 		case FW_FAPPEND: { File g(P, File::APPEND); if (!g) { err = "File(p, APPEND) not open"; return false; } int m = g.write(pc.data(), (int)pc.size()); if (m != (int)pc.size()) { err = "write() count"; return false; } L += pc; exists = true; break; }
-		case F_OPEN_W: if (!F->open(File::WRITE)) { err = "open(WRITE) returned false"; return false; } std::string().swap(L); exists = true; mode = WR; flushed = true; break;
-		case F_OPEN_A: if (!F->open(File::APPEND)) { err = "open(APPEND) returned false"; return false; } exists = true; mode = AP; flushed = true; break;
-		case F_OPEN_R: if (!F->open(File::READ)) { err = "open(READ) returned false"; return false; } mode = RD; pos = 0; eof = false; break;
-		case F_CLOSE: F->close(); mode = CL; cached = false; pos = 0; eof = false; flushed = true; break;
-		case F_FLUSH: F->flush(); flushed = true; break;
+		case F_OPEN_W: reopened(); if (!F->open(File::WRITE)) { err = "open(WRITE) returned false"; return false; } std::string().swap(L); exists = true; mode = WR; break;
+		case F_OPEN_A: reopened(); if (!F->open(File::APPEND)) { err = "open(APPEND) returned false"; return false; } exists = true; mode = AP; break;
+		case F_OPEN_R: reopened(); if (!F->open(File::READ)) { err = "open(READ) returned false"; return false; } mode = RD; break;
+		case F_OPEN_RW: reopened(); if (!F->open(File::RW)) { err = "open(RW) returned false"; return false; } mode = RW; break;
+		case F_CLOSE: F->close(); mode = CL; cached = false; pos = 0; eof = false; flushed = true; rwlast = 0; break;
+		case F_FLUSH: F->flush(); flushed = true; rwlast = 0; break;
 		case F_PUT: case F_STREAM: case F_BPUT: {
 			if (cached) vf::add(W_H_CACHED_SIZE_THEN_WRITE);
 			bool ok = true;
@@ -652,8 +915,13 @@ struct HistSys {
 			wrote(pc);
 			break; }
 		case F_WRITEP: { int m = F->File::write(pc.data(), (int)pc.size()); if (m != (int)pc.size()) { err = fmt("write(ptr,%d) returned %d", (int)pc.size(), m); return false; } wrote(pc); break; }
-		case F_CONTENT: { ByteArray c = F->content(); if (SB(c) != L) { err = "f.content(): " + firstdiff(SB(c), L); return false; } mode = RD; pos = L.size(); eof = false; cached = true; vf::add(W_H_REUSED_OBJECT_READ); break; }
-		case F_TEXT: { String t = F->text(); if (vfx::S(t) != L) { err = "f.text(): " + firstdiff(vfx::S(t), L); return false; } mode = RD; pos = L.size(); eof = false; cached = true; vf::add(W_H_REUSED_OBJECT_READ); break; }
+		case F_CONTENT: { if (cached && csize != L.size()) vf::add(W_H_SIZE_CACHE_OUTDATED); ByteArray c = F->content(); if (SB(c) != L) { err = "f.content(): " + firstdiff(SB(c), L); return false; } mode = RD; pos = L.size(); eof = false; cached = true; csize = L.size(); vf::add(W_H_REUSED_OBJECT_READ); break; }
+		case F_TEXT: {
+			if (cached && csize != L.size()) vf::add(W_H_SIZE_CACHE_OUTDATED);
+			String t = F->text(); std::string e = as_text(L);
+			if (vfx::S(t) != e) { err = "f.text(): " + firstdiff(vfx::S(t), e); return false; }
+			mode = RD; pos = L.size(); eof = e.size() != L.size(); // a BOM was skipped: the read of size() bytes came up short
+			cached = true; csize = L.size(); vf::add(W_H_REUSED_OBJECT_READ); break; }
 		case F_LINES: case F_READLOOP: {
 			std::vector<std::string> ref = ref_lines(L), got;
 			if (o.k == F_LINES) { Array<String> a = F->lines(); for (int i = 0; i < a.length(); i++) got.push_back(vfx::S(a[i])); }
@@ -661,9 +929,12 @@ struct HistSys {
 			if (got != ref) { size_t i = 0; while (i < got.size() && i < ref.size() && got[i] == ref[i]) i++; err = fmt("%s gave %d lines, reference %d; first differing line %d", o.k == F_LINES ? "f.lines()" : "readLine loop", (int)got.size(), (int)ref.size(), (int)i) + (i < got.size() && i < ref.size() ? ": " + firstdiff(got[i], ref[i]) : std::string()); return false; }
 			mode = RD; pos = L.size(); eof = true; vf::add(W_H_REUSED_OBJECT_READ);
 			break; }
-		case F_SIZE: { Long s = F->size(); if (s != (Long)L.size()) { err = fmt("f.size() = %lld, %d bytes were written", (long long)s, (int)L.size()); return false; } cached = true; break; }
+		case F_SIZE: {
+			if (writing()) vf::add(W_H_SIZE_WHILE_WRITING);
+			if (cached && csize != L.size()) vf::add(W_H_SIZE_CACHE_OUTDATED);
+			Long s = F->size(); if (s != (Long)L.size()) { err = fmt("f.size() = %lld, %d bytes were written", (long long)s, (int)L.size()); return false; } cached = true; csize = L.size(); break; }
 		case F_FIRST: { ByteArray c = F->firstBytes(o.a); std::string e = L.substr(0, (size_t)o.a); if (SB(c) != e) { err = fmt("f.firstBytes(%d): ", o.a) + firstdiff(SB(c), e); return false; } mode = RD; pos = e.size(); eof = (size_t)o.a > L.size(); break; }
-		case F_READ: { std::string buf((size_t)o.a, 0); int r = F->read(&buf[0], o.a); std::string e = L.substr(pos, (size_t)o.a); if (r != (int)e.size() || buf.substr(0, (size_t)std::max(r, 0)) != e) { err = fmt("f.read(buf,%d) at offset %d returned %d: ", o.a, (int)pos, r) + firstdiff(buf.substr(0, (size_t)std::max(r, 0)), e); return false; } if ((size_t)o.a > L.size() - pos) eof = true; pos += e.size(); vf::add(W_H_STREAM_READ); break; }
+		case F_READ: { std::string buf((size_t)o.a, 0); int r = F->read(&buf[0], o.a); std::string e = L.substr(pos, (size_t)o.a); if (r != (int)e.size() || buf.substr(0, (size_t)std::max(r, 0)) != e) { err = fmt("f.read(buf,%d) at offset %d returned %d: ", o.a, (int)pos, r) + firstdiff(buf.substr(0, (size_t)std::max(r, 0)), e); return false; } if ((size_t)o.a > L.size() - pos) eof = true; pos += e.size(); vf::add(W_H_STREAM_READ); if (mode == RW) { rwlast = 1; vf::add(W_H_RW_READ); } break; }
 		case F_READLINE: {
 			String s = F->readLine();
 			size_t q = L.find('\n', pos);
@@ -673,12 +944,14 @@ struct HistSys {
 			if (vfx::S(s) != e) { err = "f.readLine(): " + firstdiff(vfx::S(s), e); return false; }
 			vf::add(W_H_STREAM_READ);
 			break; }
-		case F_SEEK0: F->seek(0); pos = 0; eof = false; break;
+		case F_SEEK0: F->seek(0); pos = 0; eof = false; if (mode == RW) { flushed = true; rwlast = 0; } break; // positioning writes the buffered bytes out
 		}
+		steps++;
+		if (observe_at >= 0 && steps != observe_at) return true;
 		return observe(err);
 	}
 	bool observe(std::string& err) {
-		if (mode == RD) {
+		if (mode == RD || mode == RW) {
 			bool e = F->end();
 			if (e) vf::add(W_H_EOF_SEEN);
 			if (e != eof) { err = fmt("f.end() = %d, expected %d (offset %d of %d)", (int)e, (int)eof, (int)pos, (int)L.size()); return false; }
@@ -694,7 +967,7 @@ struct HistSys {
 			{ Long s = File(P).size(); if (s != (Long)L.size()) { err = fmt("File(p).size() = %lld, %d bytes were written", (long long)s, (int)L.size()); return false; } }
 			{ ByteArray c = File(P).content(); if (SB(c) != L) { err = "File(p).content(): " + firstdiff(SB(c), L); return false; } }
 			{ ByteArray c = File(P).firstBytes(2); if (SB(c) != L.substr(0, 2)) { err = "File(p).firstBytes(2): " + firstdiff(SB(c), L.substr(0, 2)); return false; } }
-			if (!starts_with_bom(L)) { String t = TextFile(P).text(); if (vfx::S(t) != L) { err = "TextFile(p).text(): " + firstdiff(vfx::S(t), L); return false; } }
+			if (!bom16(L)) { String t = TextFile(P).text(); if (vfx::S(t) != as_text(L)) { err = "TextFile(p).text(): " + firstdiff(vfx::S(t), as_text(L)); return false; } }
 			if (!has_nul(L)) {
 				std::vector<std::string> ref = ref_lines(L), got;
 				Array<String> a = TextFile(P).lines();
@@ -706,7 +979,7 @@ struct HistSys {
 	}
 	std::string canon() {
 		// model state + the implementation state the model does not define (handle present, cached stat size): merging is sound only if these agree
-		return fmt("%d|%d|%d|%d|%d|%d|h%d|i%lld|", (int)exists, mode, (int)cached, (int)(mode == RD ? pos : 0), (int)eof, (int)flushed, (int)(F->_file != 0), (long long)F->_info.size) + L;
+		return fmt("%d|%d|%d|%d|%d|%d|r%d|h%d|i%lld|", (int)exists, mode, (int)cached, (int)(mode == RD || mode == RW ? pos : 0), (int)eof, (int)flushed, rwlast, (int)(F->_file != 0), (long long)F->_info.size) + L;
 	}
 };
 
@@ -719,6 +992,12 @@ static bool python_crosscheck(int bomlen) {
 	for (int enc = 0; enc < 3; enc++) for (int len = 0; len <= bomlen; len++) {
 		int cnt = 1; for (int i = 0; i < len; i++) cnt *= NSCALAR;
 		for (int idx = 0; idx < cnt; idx++) { std::string raw, ex; bom_build(enc, bom_seq(len, idx), raw, ex); fprintf(f, "B %d -%s -%s\n", enc, vf::hex(raw).c_str(), vf::hex(ex).c_str()); n++; }
+	}
+	// the second BOM family: every sequence at every repetition count but the largest; the largest for sequences of <= 1 scalar
+	for (int enc = 0; enc < 3; enc++) for (int len = 0; len <= 2; len++) for (int ri = 0; ri < NBOMX_REP; ri++) {
+		if (BOMX_REPS[ri] > 100 && len > 1) continue;
+		int cnt = 1; for (int i = 0; i < len; i++) cnt *= NSCALAR_X;
+		for (int idx = 0; idx < cnt; idx++) { std::string raw, ex; bom_build(enc, bomx_seq(len, idx, BOMX_REPS[ri]), raw, ex); fprintf(f, "B %d -%s -%s\n", enc, vf::hex(raw).c_str(), vf::hex(ex).c_str()); n++; }
 	}
 	std::vector<std::string> texts = special_texts();
 	for (int li = 0; li < NLEN_ALL && LEN_TABLE[li] <= 5000; li++) for (int sh = 0; sh < NSHAPE; sh++) for (int ki = 0; ki < NK; ki++) texts.push_back(make_text(LEN_TABLE[li], sh, K_TABLE[ki]));
@@ -751,6 +1030,9 @@ static void run_case(const std::string& k) {
 	if (k.compare(0, 3, "rw:") == 0) { int li, sh, ki, w; if (sscanf(k.c_str() + 3, "%d:%d:%d:%d", &li, &sh, &ki, &w) == 4) check_rw(table_text(li, sh, ki), w, k); }
 	else if (k.compare(0, 4, "rws:") == 0) { int i, w; if (sscanf(k.c_str() + 4, "%d:%d", &i, &w) == 2) check_rw(special_texts()[(size_t)i], w, k); }
 	else if (k.compare(0, 5, "line:") == 0) { int n, e, p, f; if (sscanf(k.c_str() + 5, "%d:%d:%d:%d", &n, &e, &p, &f) == 4) check_line(n, e, p, f); }
+	else if (k.compare(0, 5, "bomx:") == 0) { int e, l, i, r, v; if (sscanf(k.c_str() + 5, "%d:%d:%d:%d:%d", &e, &l, &i, &r, &v) == 5) check_bomx(e, l, i, r, v); }
+	else if (k.compare(0, 7, "copyrf:") == 0 || k.compare(0, 7, "moverf:") == 0) { long s; int d, a, kk; if (sscanf(k.c_str() + 7, "%ld:%d:%d:%d", &s, &d, &a, &kk) == 4) check_readfault(s, d, a, kk, k[0] == 'm'); }
+	else if (k.compare(0, 8, "copysrc:") == 0) { int sk, d, a; if (sscanf(k.c_str() + 8, "%d:%d:%d", &sk, &d, &a) == 3) check_badsource(sk, d, a); }
 	else if (k.compare(0, 4, "bom:") == 0) { int e, l, i, v; if (sscanf(k.c_str() + 4, "%d:%d:%d:%d", &e, &l, &i, &v) == 4) check_bom(e, l, i, v); }
 	else if (k.compare(0, 4, "bin:") == 0) { long s; int p, w; if (sscanf(k.c_str() + 4, "%ld:%d:%d", &s, &p, &w) == 3) check_bin(s, p, w); }
 	else if (k.compare(0, 5, "copy:") == 0) { long s; int d, a; if (sscanf(k.c_str() + 5, "%ld:%d:%d", &s, &d, &a) == 3) check_copy(s, d, a); }
@@ -770,8 +1052,21 @@ int main(int argc, char** argv) {
 	W_APPEND_EXISTING = vf::counter("w.append_to_existing"); W_TRUNCATE_EXISTING = vf::counter("w.overwrite_longer_existing"); W_READ_SHORT = vf::counter("w.read_beyond_end_short_count"); W_BIG = vf::counter("w.content_1MiB_or_more");
 	W_H_REUSED_OBJECT_READ = vf::counter("w.hist_one_shot_read_through_long_lived_object"); W_H_CACHED_SIZE_THEN_WRITE = vf::counter("w.hist_write_after_cached_size"); W_H_APPEND_OPEN = vf::counter("w.hist_append_to_existing");
 	W_H_STREAM_READ = vf::counter("w.hist_stream_read_steps"); W_H_EOF_SEEN = vf::counter("w.hist_end_true_observed"); W_H_CR_LF_ACROSS_WRITES = vf::counter("w.hist_cr_and_lf_from_different_writes");
+	C_REPEATS = vf::counter("repeats_of_a_listed_violation_not_listed_again");
+	W_COPY_ALIAS = vf::counter("w.copy_destination_is_the_source"); W_MOVE_ALIAS = vf::counter("w.move_destination_is_the_source"); W_MOVE_ALIAS_EXDEV = vf::counter("w.move_exdev_through_link_to_source");
+	W_COPY_DEVFULL = vf::counter("w.copy_to_full_device"); W_FREAD_FAULT = vf::counter("w.fread_fault_delivered"); W_COPY_READ_FAULT = vf::counter("w.copy_source_read_error"); W_MOVE_READ_FAULT = vf::counter("w.move_exdev_source_read_error");
+	W_COPY_UNREADABLE_SOURCE = vf::counter("w.copy_from_unreadable_source");
+	W_INFO_FROM_LISTING = vf::counter("w.read_through_directory_listing_object"); W_INFO_COPIED = vf::counter("w.read_through_copy_of_object_with_cached_size"); W_INFO_REPOINTED = vf::counter("w.read_through_repointed_object");
+	W_BOMX = vf::counter("w.bom_wide_alphabet_repeated"); W_BOM_OVER_STDIO_BUFFER = vf::counter("w.bom_file_over_4096_bytes"); W_BOM_RESULT_ON_HEAP = vf::counter("w.bom_text_over_15_bytes"); W_BOM_INNER_FEFF = vf::counter("w.bom_inner_feff");
+	W_LINE_OVER_4096 = vf::counter("w.line_over_4096"); W_LINE_OVER_65536 = vf::counter("w.line_over_65536");
+	W_READLINE_CHAR = vf::counter("w.readline_char_loops"); W_READLINE_BOOL_IDIOM = vf::counter("w.readline_bool_idiom_loops"); W_READLINE_FALSE_AT_END = vf::counter("w.readline_returned_false");
+	W_H_OPEN_WHILE_OPEN = vf::counter("w.hist_open_on_open_object"); W_H_OPEN_WHILE_UNFLUSHED = vf::counter("w.hist_open_on_object_with_unflushed_bytes"); W_H_SIZE_WHILE_WRITING = vf::counter("w.hist_size_of_writing_object");
+	W_H_SIZE_CACHE_OUTDATED = vf::counter("w.hist_size_asked_again_after_content_changed"); W_H_RW_READ = vf::counter("w.hist_rw_read"); W_H_RW_OVERWRITE = vf::counter("w.hist_rw_overwrite"); W_H_RW_EXTEND = vf::counter("w.hist_rw_write_behind_end");
+	W_H_BOM_LED = vf::counter("w.hist_content_led_by_utf8_bom"); W_H_OVER_STDIO_BUFFER = vf::counter("w.hist_content_over_4096");
 	bool T = vf::opt.thorough();
 	HistSys hs;
+	std::string phases; double t_phase = vf::now_s();
+	auto phase_done = [&](const char* name) { double t = vf::now_s(); phases += fmt("%s\"%s\": %.1f", phases.empty() ? "" : ", ", name, t - t_phase); t_phase = t; vf::setinfo("phase_wall_s", "{" + phases + "}"); };
 	if (vf::opt.replay) {
 		const std::string& k = vf::opt.kase;
 		vf::parallel(1, [&](uint64_t) {
@@ -782,6 +1077,7 @@ int main(int argc, char** argv) {
 	}
 	const int BOMLEN = T ? 5 : 4;
 	if (!python_crosscheck(BOMLEN)) { vf::finish(); return 2; }
+	phase_done("python_cross_check");
 
 	// (a) table x writers, special texts x writers
 	if (!late("table"))
@@ -795,16 +1091,24 @@ int main(int argc, char** argv) {
 				else check_rw(sp[(size_t)(i - ntab)], w, fmt("rws:%d:%d", (int)(i - ntab), w));
 			}
 		});
+		phase_done("table");
 		vf::setinfo("table", fmt("{\"lengths\": %d, \"shapes\": %d, \"line_lengths\": %d, \"special_texts\": %d, \"writers\": %d}", NLEN, NSHAPE, NK, (int)sp.size(), (int)NWRITER));
 	}
 	// (b) every line length
 	if (!late("line lengths"))
 	{
 		int maxn = T ? 2100 : 1300;
-		vf::parallel((uint64_t)maxn + 1, [&](uint64_t n) {
-			for (int eol = 0; eol < NEOL; eol++) for (int pos = 0; pos < NPOS; pos++) for (int fill = 0; fill < NFILL; fill++) check_line((int)n, eol, pos, fill);
-		}, 8);
-		vf::setinfo("line_lengths", fmt("\"0..%d complete x %d line ends x %d positions x %d fillings\"", maxn, (int)NEOL, (int)NPOS, (int)NFILL));
+		std::vector<int> ns;
+		for (int n = 0; n <= maxn; n++) ns.push_back(n);
+		// around the sizes a larger chunk constant or the stdio buffer would make critical: 4096, 8192, 65536 (and 4095-byte fgets chunks: 4094, 8189)
+		for (int n = 4092; n <= 4098; n++) ns.push_back(n);
+		for (int n = 8187; n <= 8194; n++) ns.push_back(n);
+		for (int n = 65533; n <= 65538; n++) ns.push_back(n);
+		vf::parallel(ns.size(), [&](uint64_t i) {
+			for (int eol = 0; eol < NEOL; eol++) for (int pos = 0; pos < NPOS; pos++) for (int fill = 0; fill < NFILL; fill++) check_line(ns[i], eol, pos, fill);
+		}, 4);
+		phase_done("line_lengths");
+		vf::setinfo("line_lengths", fmt("\"0..%d complete + 4092..4098, 8187..8194, 65533..65538 x %d line ends x %d positions x %d fillings\"", maxn, (int)NEOL, (int)NPOS, (int)NFILL));
 	}
 	// (c) BOM files
 	if (!late("BOM files"))
@@ -813,6 +1117,23 @@ int main(int argc, char** argv) {
 		std::vector<J> js;
 		for (int enc = 0; enc < 3; enc++) for (int len = 0; len <= BOMLEN; len++) { int cnt = 1; for (int i = 0; i < len; i++) cnt *= NSCALAR; for (int idx = 0; idx < cnt; idx++) { J j = { enc, len, idx }; js.push_back(j); } }
 		vf::parallel(js.size(), [&](uint64_t i) { check_bom(js[i].enc, js[i].len, js[i].idx, 0); check_bom(js[i].enc, js[i].len, js[i].idx, 1); }, 16);
+		// wider alphabet, repeated; one repetition count after the other, the small ones first: a tree that already fails there (an
+		// overflow is reported by ASan once per byte) is not run through the 3000-fold texts as well - the run has failed anyway
+		struct X { int enc, len, idx, rep; };
+		uint64_t nx = 0, viol0 = vf::nviolations();
+		for (int ri = 0; ri < NBOMX_REP; ri++) {
+			if (BOMX_REPS[ri] > 6 && vf::nviolations() > viol0) { vf::cap_hit(fmt("bomx: repetition counts >= %d skipped after violations in the shorter BOM texts", BOMX_REPS[ri])); break; }
+			std::vector<X> xs;
+			for (int enc = 0; enc < 3; enc++) for (int len = 0; len <= (T ? 3 : 2); len++) {
+				if (len == 3 && BOMX_REPS[ri] > 6) continue;
+				int cnt = 1; for (int i = 0; i < len; i++) cnt *= NSCALAR_X;
+				for (int idx = 0; idx < cnt; idx++) { X x = { enc, len, idx, BOMX_REPS[ri] }; xs.push_back(x); }
+			}
+			vf::parallel(xs.size(), [&](uint64_t i) { check_bomx(xs[i].enc, xs[i].len, xs[i].idx, xs[i].rep, 0); check_bomx(xs[i].enc, xs[i].len, xs[i].idx, xs[i].rep, 1); }, 8);
+			nx += xs.size();
+		}
+		phase_done("bom");
+		vf::setinfo("bom_wide", fmt("\"every sequence of <= %d scalars over the 20-scalar alphabet {.., U+FEFF, U+FFFE, U+7F, U+80, U+7FF, U+800, U+D7FF, U+E000, U+FFFF, U+10FFFF} repeated 1/6/100/3000 times (length 3: 1/6) x 3 encodings x 2 ways of writing: %d cases\"", T ? 3 : 2, (int)nx * 2));
 		vf::setinfo("bom", fmt("\"every sequence of <= %d scalars over {A, e-acute, euro, U+1F600, CR, LF, U+010D, U+0D0A, U+1F40D, U+0A00} x UTF-8/UTF-16LE/UTF-16BE x written by POSIX / File::put\"", BOMLEN));
 	}
 	// (d) binary contents
@@ -831,6 +1152,7 @@ int main(int argc, char** argv) {
 		}
 		for (long sz = 0; sz <= (T ? 4200 : 1100); sz++) { bool in = false; for (size_t si = 0; si < sizes.size(); si++) if (sizes[si] == sz) in = true; if (!in) { J j = { sz, 0, WR_FPUT }; js.push_back(j); J k = { sz, 3, WR_FWRITE }; js.push_back(k); } }
 		vf::parallel(js.size(), [&](uint64_t i) { check_bin(js[i].s, js[i].pat, js[i].w); });
+		phase_done("binary");
 	}
 	// (e) copy / move
 	if (!late("copy/move"))
@@ -844,6 +1166,19 @@ int main(int argc, char** argv) {
 			for (int rm = 0; rm < 3; rm++) { J m = { sizes[si], dest, rm, api, true }; js.push_back(m); }
 		}
 		vf::parallel(js.size(), [&](uint64_t i) { if (js[i].move) check_move(js[i].s, js[i].dest, js[i].rmode, js[i].api); else check_copy(js[i].s, js[i].dest, js[i].api); });
+		// a source that cannot be read to the end: read call k of the copy loop fails (interposed fread, real EISDIR)
+		struct R { long s; int dest, api, k; bool move; };
+		std::vector<R> rs;
+		long rsz[] = { 1, 65536, 65537, 131073 };
+		int rdest[] = { D_NEW, D_EXISTING_LONGER, D_DIR };
+		for (size_t si = 0; si < sizeof rsz / sizeof *rsz; si++) for (int k = 1; k <= 3; k++) {
+			if ((long)(k - 1) * 65536 > rsz[si]) continue; // the loop makes size/65536 + 1 read calls
+			for (size_t di = 0; di < 3; di++) for (int api = 0; api < 2; api++) for (int mv = 0; mv < 2; mv++) { R r = { rsz[si], rdest[di], api, k, mv != 0 }; rs.push_back(r); }
+		}
+		vf::parallel(rs.size(), [&](uint64_t i) { check_readfault(rs[i].s, rs[i].dest, rs[i].api, rs[i].k, rs[i].move); });
+		// sources whose first read fails by themselves
+		vf::parallel((uint64_t)NBADSRC * 3 * 2, [&](uint64_t i) { int rd[] = { D_NEW, D_EXISTING_LONGER, D_DIR }; check_badsource((int)(i / 6), rd[i / 2 % 3], (int)(i % 2)); });
+		phase_done("copy_move");
 	}
 	// (f) histories
 	{
@@ -853,11 +1188,17 @@ int main(int argc, char** argv) {
 		for (size_t i = 0; i < r.per_depth.size(); i++) pd += fmt(i ? ",%llu" : "%llu", (unsigned long long)r.per_depth[i]);
 		vf::setinfo("hist", fmt("{\"depth_completed\": %d, \"states\": %llu, \"transitions\": %llu, \"new_states_per_depth\": [%s], \"op_alphabet\": %d}", r.depth_done, (unsigned long long)r.states, (unsigned long long)r.transitions, pd.c_str(), hs.nops()));
 		vf::add(cS, r.states); vf::add(cT, r.transitions); vf::add(cTr, r.traces);
+		phase_done("histories");
 		hs.reset(); delete hs.F; hs.F = 0;
 	}
 	vf::sample("rw: text of 510 bytes, CRLF lines of 253 chars, written by 'TextFile(p).write(s1); TextFile(p).append(s2)' over an existing longer file; read by POSIX, size, content, firstBytes(0,1,2,3,254,255,256,n-1,n,n+1,n+70000), read() in chunks of n/255/4097/65536/1, text(), lines(), three readLine loops");
 	vf::sample("line: 'short\\n' + line of 508 chars with CRs at offsets 252,253,254 + '\\r\\r\\n' -> lines(), readLine loops, text()");
 	vf::sample("bom: FF FE 3D D8 00 DE 0D 00 0A 00 (UTF-16LE U+1F600 CR LF) -> text() == F0 9F 98 80 0A");
 	vf::sample("move: Directory::move of 65537 bytes into an existing directory when rename() fails with EXDEV (interposed)");
+	vf::sample("copy: File::copy of 65537 bytes to a symbolic link that names the source itself -> the source must keep its 65537 bytes");
+	vf::sample("moverf: Directory::move of 131073 bytes when rename() answers EXDEV and the third fread of the copy loop fails with EISDIR -> the source must survive");
+	vf::sample("bomx: FE FF + (FE FF D8 3D DE 00) x 3000 (UTF-16BE, inner U+FEFF and U+1F600, 36002 bytes) -> text() == (EF BB BF F0 9F 98 80) x 3000");
+	vf::sample("line: line of 65536 chars + CR LF + 'tail' -> lines(), readLine loops, while(f.readLine(s)), text()");
+	vf::sample("hist: f.open(WRITE) ; f.put(String <4203 bytes>) ; f.open(APPEND) ; f.size() ; f.put(\"bf\"h)  (open on an open object with unflushed bytes, size of a writing object)");
 	return vf::finish();
 }
